@@ -805,6 +805,15 @@ def gen_ftl(rng, nrec, exotic=False):
             b.emit("\n" * pick(rng, b, "blank_before", [0, 0, 1, 2]))
             ngar = 0 if rng.random() >= 0.18 else rng.choice([1, 1, 2, 3])
             b.layout.setdefault("garbage", []).append(ngar)
+            if ngar == 1 and rng.random() < 0.3:
+                # a stray tab on a line of its own: Junk that is white space only; it is kept
+                # whole, up to the start of the next entry
+                ngar = 0
+                b.layout.setdefault("stray_tab", []).append("inner")
+                ftl_close_junk(b)
+                b.junk_start = b.n
+                b.emit(rng.choice(["\t", "\t\t", "\t "]) + "\n" + "\n" * rng.choice([0, 0, 1, 2]))
+                b.junk_last = b.n
             for _ in range(ngar):
                 g = rng.choice(F_GARBAGE)
                 # fluent.syntax starts a new entry at every line beginning with a letter, - or #
@@ -859,9 +868,14 @@ def gen_ftl(rng, nrec, exotic=False):
     if (trailing or not nrec) and rng.random() < 0.18:
         b.layout.setdefault("garbage", []).append(1)
         b.junk_start = b.n
-        b.emit(rng.choice(F_GARBAGE))
-        b.junk_last = b.n
-        b.emit(rng.choice(["\n", "", "\n\n"]))
+        if rng.random() < 0.3:
+            b.layout.setdefault("stray_tab", []).append("tail")
+            b.emit(rng.choice(["\t", "\t\t", "\t "]) + rng.choice(["\n", "", "\n\n"]))
+            b.junk_last = b.n
+        else:
+            b.emit(rng.choice(F_GARBAGE))
+            b.junk_last = b.n
+            b.emit(rng.choice(["\n", "", "\n\n"]))
     ftl_close_junk(b)
     return b
 
